@@ -15,6 +15,11 @@
 #include <algorithm>
 #include <functional>
 #include <boost/multiprecision/gmp.hpp>
+#include <unistd.h>
+
+#if defined(__SANITIZE_ADDRESS__)
+extern "C" int __lsan_do_recoverable_leak_check();
+#endif
 
 namespace vl
 {
@@ -248,11 +253,85 @@ struct Sink
    int sinceFlush = 0;
    void end(long long k)
    {
+      leakCheck();
       Json j;
       j.str("ev", "end").num("case", k);
       emit(j.done());
       // periodic incremental summaries, so that the observations of completed cases survive a later crash of this worker
       if(++sinceFlush >= 25) flushSummary();
+   }
+   // LeakSanitizer check attributed to the current case (call before end()); leaks are keyed by the top soplex frames of
+   // the allocation stack.  No-op in non-ASan builds.
+   int leakEvery = 1;
+   long long leakCalls = 0;
+   std::set<std::string> seenLeaks;
+   void leakCheck()
+   {
+#if defined(__SANITIZE_ADDRESS__)
+      if(leakEvery <= 0 || (++leakCalls % leakEvery) != 0) return;
+      fflush(stderr);
+      FILE* tf = tmpfile();
+      if(!tf) return;
+      int saved = dup(2);
+      dup2(fileno(tf), 2);
+      int r = __lsan_do_recoverable_leak_check();
+      fflush(stderr);
+      dup2(saved, 2);
+      close(saved);
+      if(r)
+      {
+         std::string txt;
+         rewind(tf);
+         char buf[4096];
+         size_t n;
+         while((n = fread(buf, 1, sizeof buf, tf)) > 0 && txt.size() < 60000) txt.append(buf, n);
+         // one block per leaked allocation stack; LSan repeats old leaks on every call, so remember what was reported
+         size_t bp = 0;
+         while((bp = txt.find("irect leak of", bp)) != std::string::npos)
+         {
+            size_t be = txt.find("irect leak of", bp + 10);
+            std::string blk = txt.substr(bp, be == std::string::npos ? std::string::npos : be - bp);
+            bp += 10;
+            std::string frames, firstUser;
+            int nf = 0;
+            size_t pos = 0;
+            while(nf < 2 && (pos = blk.find(" in ", pos)) != std::string::npos)
+            {
+               pos += 4;
+               size_t e = blk.find_first_of("\n", pos);
+               std::string line = blk.substr(pos, e == std::string::npos ? std::string::npos : e - pos);
+               std::string fn;
+               int depth = 0;
+               for(char ch : line)
+               {
+                  if(ch == '<' || ch == '(') depth++;
+                  else if(ch == '>' || ch == ')') depth--;
+                  else if(depth == 0)
+                  {
+                     if(ch == ' ') break;
+                     fn += ch;
+                  }
+               }
+               if(fn.empty() || (fn[0] >= '0' && fn[0] <= '9')) continue;
+               bool sx = line.find("soplex::") != std::string::npos || line.find("SoPlex_") != std::string::npos;
+               if(firstUser.empty() && fn.find("__interceptor") == std::string::npos && fn.find("operator") == std::string::npos) firstUser = fn;
+               if(!sx) continue;
+               size_t q = fn.find("soplex::");
+               if(q != std::string::npos) fn = fn.substr(q + 8);
+               if(!fn.empty() && frames.find(fn) == std::string::npos)
+               {
+                  frames += (nf ? "|" : "") + fn;
+                  nf++;
+               }
+            }
+            if(frames.empty()) frames = "nosoplexframe:" + firstUser;
+            if(!seenLeaks.insert(frames).second) continue;
+            count("lsan.leak_reports");
+            viol(prop + ":leak:" + frames, "LeakSanitizer: memory allocated during (or shortly before) this case is unreachable\n" + blk.substr(0, 2500));
+         }
+      }
+      fclose(tf);
+#endif
    }
    void flushSummary()
    {
